@@ -41,7 +41,7 @@ func (a *A) C02() {
 	// survives the end-of-stream drain that removed it from the map)
 	a.filtersFirst()
 	a.keyedByPID()
-	// a unit that decodes is delivered whatever it contains (D1)
+	// a unit that decodes is delivered whatever it contains (D2)
 	a.NoContentFilter()
 }
 
